@@ -1,33 +1,42 @@
 import Driver.Common
-import IoraModel.Model.ConnectSync
+import IoraModel.Model.ConnectSyncX
 /-! Driver of the C04 model (`iora_model connectsync`): single-threaded lockstep ops of harness/c04_connectsync.cpp and the
-micro-step acceptor (`st …`) replaying DetSched traces of the real class. -/
+micro-step acceptor (`st …`) replaying DetSched traces of the real class.  It runs `xstep genCfg` — the model instantiated from
+the regenerated skeleton facts — and answers `disabled` for a step that is not enabled in the model's state. -/
 namespace Iora.Driver.ConnectSync
 open Iora Iora.ConnectSync Iora.Driver
 
-def showRes : Res → String
+def reasonName : Nat → String
+  | 1 => "Connect" | 2 => "Resolve" | 3 => "Timeout" | 4 => "TLSHandshake" | 5 => "Unknown" | 6 => "PeerClosed" | _ => "NoReason"
+
+def showRes (x : XState) (sid : Option Nat) : Res → String
   | .ok sid => s!"ok:{sid}"
   | .err .timeout => "err:Timeout"
   | .err .shuttingDown => "err:ShuttingDown"
   | .err .cancelled => "err:Cancelled"
-  | .err .closed => "err:Closed"
+  | .err .refused => "err:ShuttingDown"        -- the scripted engine refuses like TcpEngine::connect on a closed queue
+  | .err .closed => match sid with | some sid => s!"err:{reasonName (x.reason sid)}" | none => "err:NoSession"
 
 /-- the externally observable part of the log (what the harness can see of the real class) -/
-def showEv (s : State) : Ev → Option String
-  | .created _ sid => some s!"created:{sid}"
+def showEv (x : XState) (lastSid : Nat → Option Nat) : Ev → Option String
+  | .created _ sid => some s!"created:{sid}:tls={x.sessTls sid}"
   | .engineClose _ sid => some s!"engineClose:{sid}"
   | .globalConnect sid => some s!"gconnect:{sid}"
   | .globalClose sid => some s!"gclose:{sid}"
-  | .attemptRet c _ r => if (s.callers c).wrapped then none else some s!"ret:{c}:{showRes r}"
-  | .wrapRet c r => some s!"ret:{c}:{showRes r}"
+  | .attemptRet c sid r => if (x.core.callers c).wrapped then none else some s!"ret:{c}:{showRes x sid r}"
+  | .wrapRet c r => some s!"ret:{c}:{showRes x (lastSid c) r}"
   | _ => none
 
 def joinEvs (l : List String) : String := if l.isEmpty then "-" else ";".intercalate l
 
-/-- run steps, return the observable events they appended -/
-def runObs (s : State) (steps : List Step) : State × List String :=
-  let s' := run s steps
-  (s', (s'.log.drop s.log.length).filterMap (showEv s'))
+/-- sid of the last attempt of caller `c` in a log segment (for the wrapper's final return) -/
+def lastAttemptSid (log : List Ev) (c : Nat) : Option Nat :=
+  log.foldl (fun acc e => match e with | .attemptRet c' sid _ => if c' = c then sid else acc | _ => acc) none
+
+def obsSince (x0 x : XState) : List String :=
+  (x.core.log.drop x0.core.log.length).filterMap (showEv x (lastAttemptSid x.core.log))
+
+def xsteps (x : XState) (steps : List (Step × Nat)) : XState := xrun genCfg x steps
 
 def showCmd : Option Cmd → String
   | some (.connect sid) => s!"cmd:connect:{sid}"
@@ -41,104 +50,120 @@ def pendList (s : State) : String :=
 def showState (s : State) : String :=
   s!"pend={pendList s} ac={s.activeConnects} q={s.fifo.length} sh={bit s.shuttingDown}"
 
-/-- advance the I/O thread until it is idle again (a handler has at most 2 stages) -/
-def ioDrain : List Step := [.ioStep, .ioStep, .ioStep]
+def ioDrain : List (Step × Nat) := [(.ioStep, 0), (.ioStep, 0), (.ioStep, 0)]
 
 /-- pop commands until the Connect of `sid` has been processed (fuel = queue length) -/
-def popUntil (sid : Nat) : Nat → State → State
-  | 0, s => s
-  | n + 1, s =>
-    match s.fifo with
-    | [] => s
+def popUntil (sid : Nat) : Nat → XState → XState
+  | 0, x => x
+  | n + 1, x =>
+    match x.core.fifo with
+    | [] => x
     | .connect i :: _ =>
-      let s' := run s ([.ioPop true] ++ ioDrain)
-      if i = sid then s' else popUntil sid n s'
-    | _ :: _ => popUntil sid n (run s ([.ioPop true] ++ ioDrain))
+      let x' := xsteps x ([(.ioPop true, 5)] ++ ioDrain)
+      if i = sid then x' else popUntil sid n x'
+    | _ :: _ => popUntil sid n (xsteps x ([(.ioPop true, 5)] ++ ioDrain))
 
 def sidOfPc : Pc → Option Nat
   | .closing sid => some sid
   | _ => none
 
-def parseStep : List String → Option Step
-  | ["call", c, w] => do let c ← c.toNat?; let w ← parseBit w; pure (.call c w)
-  | ["cancel", c] => do let c ← c.toNat?; pure (.cancel c)
-  | ["cEnter", c] => do let c ← c.toNat?; pure (.cEnter c)
-  | ["cConnect", c] => do let c ← c.toNat?; pure (.cConnect c)
-  | ["cRegister", c] => do let c ← c.toNat?; pure (.cRegister c)
-  | ["cPark", c] => do let c ← c.toNat?; pure (.cPark c)
-  | ["cWake", c, t] => do let c ← c.toNat?; let t ← parseBit t; pure (.cWake c t)
-  | ["cClose", c] => do let c ← c.toNat?; pure (.cClose c)
-  | ["cRelock", c] => do let c ← c.toNat?; pure (.cRelock c)
-  | ["wLoop", c, d] => do let c ← c.toNat?; let d ← parseBit d; pure (.wLoop c d)
-  | ["ioPop", b] => do let b ← parseBit b; pure (.ioPop b)
-  | ["ioComplete", sid] => do let sid ← sid.toNat?; pure (.ioComplete sid)
-  | ["ioFail", sid] => do let sid ← sid.toNat?; pure (.ioFail sid)
-  | ["ioPeerClose", sid] => do let sid ← sid.toNat?; pure (.ioPeerClose sid)
-  | ["ioStep"] => some .ioStep
-  | ["fence"] => some .fence
+def parseStep : List String → Option (Step × Nat)
+  | ["call", c, w, tls] => do let c ← c.toNat?; let w ← parseBit w; let t ← tls.toNat?; pure (.call c w, t)
+  | ["cancel", c] => do let c ← c.toNat?; pure (.cancel c, 0)
+  | ["cEnter", c] => do let c ← c.toNat?; pure (.cEnter c, 0)
+  | ["cConnect", c] => do let c ← c.toNat?; pure (.cConnect c, 0)
+  | ["cRefuse", c] => do let c ← c.toNat?; pure (.cRefuse c, 0)
+  | ["cRegister", c] => do let c ← c.toNat?; pure (.cRegister c, 0)
+  | ["cPark", c] => do let c ← c.toNat?; pure (.cPark c, 0)
+  | ["cWake", c, t] => do let c ← c.toNat?; let t ← parseBit t; pure (.cWake c t, 0)
+  | ["cClose", c] => do let c ← c.toNat?; pure (.cClose c, 0)
+  | ["cRelock", c] => do let c ← c.toNat?; pure (.cRelock c, 0)
+  | ["wLoop", c, d] => do let c ← c.toNat?; let d ← parseBit d; pure (.wLoop c d, 0)
+  | ["ioPop", b, r] => do let b ← parseBit b; let r ← r.toNat?; pure (.ioPop b, r)
+  | ["ioComplete", sid] => do let sid ← sid.toNat?; pure (.ioComplete sid, 0)
+  | ["ioFail", sid, r] => do let sid ← sid.toNat?; let r ← r.toNat?; pure (.ioFail sid, r)
+  | ["ioPeerClose", sid, r] => do let sid ← sid.toNat?; let r ← r.toNat?; pure (.ioPeerClose sid, r)
+  | ["ioStep"] => some (.ioStep, 0)
+  | ["fence"] => some (.fence, 0)
   | _ => none
 
-def step (s : State) : List String → State × String
+structure D where
+  x : XState := {}
+  refuse : Bool := false
+
+def step (d : D) : List String → D × String
   | ["reset"] => ({}, "ok")
-  | ["connect", c, _t, win] =>
-    match c.toNat? with
-    | some c =>
-      let s1 := run s [.call c false, .cEnter c, .cConnect c, .cRegister c, .cPark c, .cWake c true]
-      let s2 := match sidOfPc (s1.callers c).pc with
+  | ["refuse", b] => match parseBit b with | some b => ({ d with refuse := b }, "ok") | none => (d, "bad-op")
+  | ["connect", c, _t, win, tls] =>
+    match c.toNat?, tls.toNat? with
+    | some c, some tls =>
+      let x := d.x
+      if d.refuse then
+        let x3 := xsteps x [(.call c false, tls), (.cEnter c, 0), (.cRefuse c, 0)]
+        let obs := obsSince x x3
+        let r := obs.filter (fun e => e.startsWith "ret:")
+        let o := obs.filter (fun e => !e.startsWith "ret:")
+        ({ d with x := x3 }, s!"{joinEvs r} {joinEvs (o ++ ["refused"])} elapsed-ok | {showState x3.core}")
+      else
+      let x1 := xsteps x [(.call c false, tls), (.cEnter c, 0), (.cConnect c, 0), (.cRegister c, 0), (.cPark c, 0), (.cWake c true, 0)]
+      let x2 := match sidOfPc (x1.core.callers c).pc with
         | some sid =>
-          if win = "n" then s1
+          if win = "n" then x1
           else
-            let s1' := popUntil sid (s1.fifo.length + 1) s1
-            if win = "c" then run s1' ([.ioComplete sid] ++ ioDrain)
-            else if win = "f" then run s1' ([.ioFail sid] ++ ioDrain)
-            else s1'
-        | none => s1
-      let s3 := run s2 [.cClose c, .cRelock c]
-      let obs := (s3.log.drop s.log.length).filterMap (showEv s3)
+            let x1' := popUntil sid (x1.core.fifo.length + 1) x1
+            if win = "c" then xsteps x1' ([(.ioComplete sid, 0)] ++ ioDrain)
+            else if win = "f" then xsteps x1' ([(.ioFail sid, 1)] ++ ioDrain)
+            else x1'
+        | none => x1
+      let x3 := xsteps x2 [(.cClose c, 0), (.cRelock c, 0)]
+      let obs := obsSince x x3
       let r := obs.filter (fun e => e.startsWith "ret:")
       let o := obs.filter (fun e => !e.startsWith "ret:")
-      (s3, s!"{joinEvs r} {joinEvs o} | {showState s3}")
-    | none => (s, "bad-op")
+      ({ d with x := x3 }, s!"{joinEvs r} {joinEvs o} elapsed-ok | {showState x3.core}")
+    | _, _ => (d, "bad-op")
   | ["pop", b] =>
     match parseBit b with
     | some b =>
-      let hd := showCmd s.fifo.head?
-      let (s', obs) := runObs s ([.ioPop b] ++ ioDrain)
-      (s', s!"{hd} {joinEvs obs} | {showState s'}")
-    | none => (s, "bad-op")
+      let hd := showCmd d.x.core.fifo.head?
+      let x' := xsteps d.x ([(.ioPop b, if b then 5 else 1)] ++ ioDrain)
+      ({ d with x := x' }, s!"{hd} {joinEvs (obsSince d.x x')} | {showState x'.core}")
+    | none => (d, "bad-op")
   | ["complete", sid] =>
     match sid.toNat? with
     | some sid =>
-      let fired := s.eng sid == .connecting
-      let (s', obs) := runObs s ([.ioComplete sid] ++ ioDrain)
-      (s', s!"{if fired then "fired" else "ignored"} {joinEvs obs} | {showState s'}")
-    | none => (s, "bad-op")
-  | ["fail", sid] =>
-    match sid.toNat? with
-    | some sid =>
-      let fired := s.eng sid == .connecting
-      let (s', obs) := runObs s ([.ioFail sid] ++ ioDrain)
-      (s', s!"{if fired then "fired" else "ignored"} {joinEvs obs} | {showState s'}")
-    | none => (s, "bad-op")
+      let fired := d.x.core.eng sid == .connecting
+      let x' := xsteps d.x ([(.ioComplete sid, 0)] ++ ioDrain)
+      ({ d with x := x' }, s!"{if fired then "fired" else "ignored"} {joinEvs (obsSince d.x x')} | {showState x'.core}")
+    | none => (d, "bad-op")
+  | ["fail", sid, r] =>
+    match sid.toNat?, r.toNat? with
+    | some sid, some r =>
+      let fired := d.x.core.eng sid == .connecting
+      let x' := xsteps d.x ([(.ioFail sid, r)] ++ ioDrain)
+      ({ d with x := x' }, s!"{if fired then "fired" else "ignored"} {joinEvs (obsSince d.x x')} | {showState x'.core}")
+    | _, _ => (d, "bad-op")
   | ["peerclose", sid] =>
     match sid.toNat? with
     | some sid =>
-      let fired := s.eng sid == .established
-      let (s', obs) := runObs s ([.ioPeerClose sid] ++ ioDrain)
-      (s', s!"{if fired then "fired" else "ignored"} {joinEvs obs} | {showState s'}")
-    | none => (s, "bad-op")
+      let fired := d.x.core.eng sid == .established
+      let x' := xsteps d.x ([(.ioPeerClose sid, 6)] ++ ioDrain)
+      ({ d with x := x' }, s!"{if fired then "fired" else "ignored"} {joinEvs (obsSince d.x x')} | {showState x'.core}")
+    | none => (d, "bad-op")
   | ["fence"] =>
-    let s' := Iora.ConnectSync.step s .fence
-    (s', s!"ok | {showState s'}")
+    let x' := xsteps d.x [(.fence, 0)]
+    ({ d with x := x' }, s!"ok | {showState x'.core}")
+  | ["state"] => (d, showState d.x.core)
   | "st" :: rest =>
     match parseStep rest with
-    | some sp =>
-      let pre := match sp with | .ioPop _ => [showCmd s.fifo.head?] | _ => []
-      let (s', obs) := runObs s [sp]
-      (s', joinEvs (pre ++ obs))
-    | none => (s, "bad-op")
-  | _ => (s, "bad-op")
+    | some (sp, n) =>
+      if !enabled d.x.core sp then (d, "disabled")
+      else
+        let pre := match sp with | .ioPop _ => [showCmd d.x.core.fifo.head?] | _ => []
+        let x' := xstep genCfg d.x sp n
+        ({ d with x := x' }, joinEvs (pre ++ obsSince d.x x'))
+    | none => (d, "bad-op")
+  | _ => (d, "bad-op")
 
-def main : IO Unit := runLines ({} : State) step
+def main : IO Unit := runLines ({} : D) step
 
 end Iora.Driver.ConnectSync
